@@ -35,6 +35,27 @@ def use_harness(tier):
     h.need_globals = [TIF]
     return h
 
+def eval_file_harness(tier):
+    """F3: script-level eval_file = ChaiScript_Basic::internal_eval_file"""
+    rx = r'chaiscript::ChaiScript_Basic::internal_eval_file\('
+    stubs = [r'chaiscript::ChaiScript_Basic::(load_file|do_eval)\(', r'file_not_found_error::', r'chaiscript::Boxed_Value::Boxed_Value<'] + STRING_MODEL
+    cuts = [r'Boxed_Value::~Boxed_Value']
+    g, info = core.translate(FAM, [rx], stubs, tag='F3_probe', cuts=cuts)
+    ext = [e.split('|')[0].strip() for e in info['ext']]
+    def one(pat):
+        m = [e for e in ext if re.search(pat, e)]
+        if len(m) != 1: raise core.BuildError('internal_eval_file(): expected exactly one external matching %s, found %d' % (pat, len(m)))
+        return 'F_' + core.cname(m[0])
+    TIF = '_ZTIN10chaiscript9exception20file_not_found_errorE'; TIE = '_ZTIN10chaiscript9exception10eval_errorE'; TIB = '_ZTIN10chaiscript11Boxed_ValueE'
+    d = {'EVAL_FILE': core.csym(FAM, rx), 'LOAD_FILE': one(r'ChaiScript_Basic9load_fileE'), 'DO_EVAL': one(r'ChaiScript_Basic7do_evalE'), 'BV_FROM_EVAL_ERROR': one(r'11Boxed_ValueC[12]IRKNS_9exception10eval_errorE'),
+         'FNF_CTOR': one(r'file_not_found_errorC[12]E'), 'FNF_DTOR': one(r'file_not_found_errorD[12]E'), 'TI_FNF': '((char*)&g_%s)' % TIF, 'TI_EVAL_ERROR': '((char*)&g_%s)' % TIE, 'TI_BOXED_VALUE': '((char*)&g_%s)' % TIB,
+         'STRING_LITERALS_OPAQUE': 1, 'VERIF_CALL_V1(f,a)': '__VERIF_v1_hook(f,a)'}
+    W = ('witness: not found', 'witness: evaluated', 'witness: nested include fails', 'witness: eval_error', 'witness: other error')
+    h = Harness('F3.eval_file(script level)', FAM, [rx], 'c19_eval_file.c', stubs=stubs, cuts=cuts, shapes=[dict(d, P=p, _tag='search paths=%d' % p, _witness=W) for p in (1, 2)], opts=['--unwind', '6'], timeout=300, mem_gb=6, string_model=True,
+                inputs=['beh'], note='per search path: the file does not exist there / evaluates to a value / a nested include inside it fails / eval_error / other exception: symbolic')
+    h.need_globals = [TIF, TIE, TIB]
+    return h
+
 def harnesses(tier):
     rx = r'ChaiScript_Basic::load_file'
     g, info = core.translate(FAM, [rx], [r'file_not_found_error::', r'std::basic_ifstream<.*>::~basic_ifstream'] + STRING_MODEL, tag='F1_load_file')
@@ -46,7 +67,7 @@ def harnesses(tier):
     ls = [0, 1, 2, 3, 4, 5] if tier == 'quick' else [0, 1, 2, 3, 4, 5, 6, 7, 8, 10]
     shapes = [dict(d, L=l, _tag='length=%d' % l, _witness=('witness: missing file', 'witness: file loaded') + (('witness: byte order mark',) if l >= 3 else ())) for l in ls]
     return [Harness('F1.load_file', FAM, [rx], 'c19_load_file.c', stubs=[r'file_not_found_error::', r'std::basic_ifstream<.*>::~basic_ifstream'], shapes=shapes, opts=['--unwind', '18'], timeout=300, mem_gb=6, string_model=True,
-                    defines={'STRING_LITERALS_OPAQUE': 1}, inputs=['file_bytes', 'file_exists'], note='every content of exactly L bytes; file present or missing', replay=replay), use_harness(tier)]
+                    defines={'STRING_LITERALS_OPAQUE': 1}, inputs=['file_bytes', 'file_exists'], note='every content of exactly L bytes; file present or missing', replay=replay), use_harness(tier), eval_file_harness(tier)]
 
 ASSUMPTIONS = ['std::ifstream is a contract model written from the standard (short read => eofbit|failbit; failed stream ignores seekg/read; tellg == -1 when failed; clear() resets)',
                'std::string via the SSO-only model: file content <= 15 bytes']
